@@ -2278,6 +2278,93 @@ def c10_history(model, meta):
     return {"env": {}, "result": problems[:2], "exc": None, "verdict": bool(problems), "events": events}
 
 
+@runner("c10:step")
+def c10_step(model, meta):
+    """one call of the real _WrapNumbers.run on the state the counter-model describes (same builder as the contract)"""
+    from psutil import _common
+    from replay import c10shape as sh
+    shape = dict(kv.split("=", 1) for kv in meta["cfg"].split(","))["shape"]
+    st = sh.build(shape, lambda n: max(1 if n.startswith("m_") else 0, int(model.get(n, 0) or 0)))
+    want_res, want_off = sh.expected(st)
+    import copy
+    entry = copy.deepcopy({a: st[a] for a in ("cache", "reminders", "reminder_keys")})
+    wn = _common._WrapNumbers()
+    wn.cache, wn.reminders, wn.reminder_keys = st["cache"], st["reminders"], st["reminder_keys"]
+    inp = dict(st["input"])
+    problems, exc = [], None
+    try:
+        got = wn.run(inp, sh.NAME)
+        if got != want_res:
+            problems.append(f"returned {got}, the property asks {want_res}")
+        rn = wn.reminders.get(sh.NAME, {})
+        for (key, i), w in want_off.items():
+            g = rn[(key, i)] if (key, i) in rn else 0
+            if g != w:
+                problems.append(f"offset of ({key},{i}) afterwards {g}, expected {w}")
+        if wn.cache.get(sh.NAME) != st["input"]:
+            problems.append(f"cached snapshot {wn.cache.get(sh.NAME)} is not the input {st['input']}")
+        for a in ("cache", "reminders", "reminder_keys"):
+            if getattr(wn, a).get(sh.OTHER) != entry[a][sh.OTHER]:
+                problems.append(f"{a} of the other function changed")
+        if inp != st["input"]:
+            problems.append("the caller's dict was modified")
+        # a second call with the same snapshot must work on the state left behind (invariant) and change nothing
+        try:
+            again = wn.run(dict(st["input"]), sh.NAME)
+            if again != got:
+                problems.append(f"same snapshot again gives {again} after {got}")
+        except Exception as e:  # noqa: BLE001
+            problems.append(f"state left behind breaks the next call: {type(e).__name__}: {e}")
+    except Exception as e:  # noqa: BLE001
+        exc = e
+        problems.append(f"raised {type(e).__name__}: {e}")
+    return {"env": {}, "result": problems[:3], "exc": exc, "verdict": bool(problems), "shape": shape,
+            "entry": repr(entry)[:400], "input": repr(st["input"])}
+
+
+@runner("c10:clear")
+def c10_clear(model, meta):
+    """the real cache_clear on the state of the counter-model"""
+    import copy
+    from psutil import _common
+    from replay import c10shape as sh
+    cfg = dict(kv.split("=", 1) for kv in meta["cfg"].split(","))
+    st = sh.build(cfg["shape"], lambda n: max(1 if n.startswith("m_") else 0, int(model.get(n, 0) or 0)))
+    which = {"none": None, "own": sh.NAME, "other": sh.OTHER, "unknown": "psutil.never_called"}[cfg["which"]]
+    entry = copy.deepcopy({a: st[a] for a in ("cache", "reminders", "reminder_keys")})
+    wn = _common._WrapNumbers()
+    wn.cache, wn.reminders, wn.reminder_keys = st["cache"], st["reminders"], st["reminder_keys"]
+    problems, exc = [], None
+    try:
+        r = wn.cache_clear(which) if which is not None else wn.cache_clear()
+        if r is not None:
+            problems.append(f"returned {r!r}")
+        for a in ("cache", "reminders", "reminder_keys"):
+            m = getattr(wn, a)
+            want = {} if which is None else {k: v for k, v in entry[a].items() if k != which}
+            if m != want:
+                problems.append(f"{a} afterwards {m!r}, expected {want!r}")
+        if not wn.lock.acquire(False):
+            problems.append("the lock is still held")
+        else:
+            wn.lock.release()
+    except Exception as e:  # noqa: BLE001
+        exc = e
+        problems.append(f"raised {type(e).__name__}: {e}")
+    return {"env": {}, "result": problems[:3], "exc": exc, "verdict": bool(problems), "cfg": cfg}
+
+
+@search("c10:step")
+def c10_step_search(meta, seed, budget):
+    import random
+    from replay import c10shape as sh
+    rng = random.Random(seed)
+    shape = dict(kv.split("=", 1) for kv in meta["cfg"].split(","))["shape"]
+    names = sh.symbols(shape)
+    for n in range(budget):
+        yield {nm: rng.randrange(1 if nm.startswith("m_") else 0, 4 if n % 2 else 50) for nm in names}
+
+
 @search("c10:history")
 def c10_history_search(meta, seed, budget):
     import random
